@@ -15,7 +15,7 @@ def translate(repo='/repo'):
     src = strip_comments(open(os.path.join(repo, 'src/api/server/async_io.rs')).read())
     t = src.find('mod tests')
     if t > 0: src = src[:t]
-    abi = abi_translate(repo)
+    abi = abi_translate(repo, lenient_conv=True)     # only constants and enums are used here
     opnum = dict(abi['enums'][0][1])
     m = re.search(r'fn\s+async_handle_message\b', src)
     if not m: raise TranslateError('async_handle_message not found')
